@@ -145,7 +145,7 @@ Proof.
     destruct (a_ncdim ax); [apply le_refl | apply le_netcdf_name].
 Qed.
 
-Lemma le_write_dimcoord m ax k c s : le s (snd (write_dimcoord m ax k c s)).
+Lemma le_write_dimcoord m used ax k c s : le s (snd (write_dimcoord m used ax k c s)).
 Proof.
   unfold write_dimcoord.
   destruct (match find_seen false c None s with Some e => _ | None => None end) as [r|];
@@ -187,8 +187,8 @@ Lemma le_write_axis m f dims i ax x s : le s (snd (write_axis m f dims i ax (x, 
 Proof.
   unfold write_axis. destruct (dim_for i dims 0) as [[p k]|].
   - destruct (nmem i (f_daxes f)).
-    + pose proof (le_write_dimcoord m ax k (k_c k) s) as H.
-      destruct (write_dimcoord m ax k (k_c k) s) as [[nv nd] s1]. exact H.
+    + pose proof (le_write_dimcoord m (map snd (x_a2d x)) ax k (k_c k) s) as H.
+      destruct (write_dimcoord m (map snd (x_a2d x)) ax k (k_c k) s) as [[nv nd] s1]. exact H.
     + pose proof (le_write_scalar m k (k_c k) s) as H.
       destruct (write_scalar m k (k_c k) s) as [nv s1]. exact H.
   - destruct (nmem i (f_daxes f)); [|apply le_refl].
@@ -474,8 +474,8 @@ Proof.
     inversion H; subst. apply write_var_seen.
 Qed.
 
-Theorem dimcoord_shared_only_if_equal m ax k c s nv nd s' :
-  write_dimcoord m ax k c s = ((nv, nd), s') ->
+Theorem dimcoord_shared_only_if_equal m used ax k c s nv nd s' :
+  write_dimcoord m used ax k c s = ((nv, nd), s') ->
   (exists e, In e (w_seen s) /\ e_ncvar e = nv /\ content_eqb false c (e_c e) = true /\ s' = s)
   \/ (nd = nv /\ In {| e_c := c; e_ncvar := nv; e_ncdims := [nv] |} (w_seen s')).
 Proof.
@@ -492,7 +492,7 @@ Proof.
   - apply find_seen_sound in E as (A & B & _).
     destruct (e_ncdims e) as [|d0 r].
     + intro H. inversion H; subst. left. exists e. auto.
-    + destruct (String.eqb (e_ncvar e) d0) eqn:En.
+    + destruct (String.eqb (e_ncvar e) d0 && negb (smem d0 used)) eqn:En.
       * intro H. inversion H; subst. left. exists e. auto.
       * intro H. right. eapply C. exact H.
   - intro H. right. eapply C. exact H.
@@ -863,7 +863,7 @@ Proof.
     destruct (a_ncdim ax); [apply sm_refl | apply sm_netcdf_name].
 Qed.
 
-Lemma sm_write_dimcoord ax k c s : sm s (snd (write_dimcoord m ax k c s)).
+Lemma sm_write_dimcoord used ax k c s : sm s (snd (write_dimcoord m used ax k c s)).
 Proof.
   unfold write_dimcoord.
   destruct (match find_seen false c None s with Some e => _ | None => None end) as [r|];
@@ -905,8 +905,8 @@ Lemma sm_write_axis f dims i ax x s : sm s (snd (write_axis m f dims i ax (x, s)
 Proof.
   unfold write_axis. destruct (dim_for i dims 0) as [[p k]|].
   - destruct (nmem i (f_daxes f)).
-    + pose proof (sm_write_dimcoord ax k (k_c k) s) as H.
-      destruct (write_dimcoord m ax k (k_c k) s) as [[nv nd] s1]. exact H.
+    + pose proof (sm_write_dimcoord (map snd (x_a2d x)) ax k (k_c k) s) as H.
+      destruct (write_dimcoord m (map snd (x_a2d x)) ax k (k_c k) s) as [[nv nd] s1]. exact H.
     + pose proof (sm_write_scalar k (k_c k) s) as H.
       destruct (write_scalar m k (k_c k) s) as [nv s1]. exact H.
   - destruct (nmem i (f_daxes f)); [|apply sm_refl].
@@ -1171,7 +1171,8 @@ Lemma write_bounds_tail m k c cd cv s :
   | Some b =>
     let size := last (b_shape b) 0%Z in
     let base := match k_bdim k with Some d => d | None => ("bounds" ++ nat_str (Z.to_nat size))%string end in
-    match find (fun d => option_eqb Z.eqb (dim_size s d) (Some size)) (w_bdims s) with
+    match find (fun d => match k_bdim k with Some n => String.eqb d n | None => true end &&
+                         option_eqb Z.eqb (dim_size s d) (Some size)) (w_bdims s) with
     | Some d => wb_tail m k c cd cv b d s
     | None => wb_tail m k c cd cv b (fst (netcdf_name base s)) (upd_bdims (fun l => l ++ [fst (netcdf_name base s)]) (snd (netcdf_name base s)))
     end
@@ -1224,9 +1225,9 @@ Proof. intros H Hin. apply H, dnames_names, Hin. Qed.
 
 (* every construct writer: the invariant is kept and the variable returned
    is not a data variable of E *)
-Lemma inv_write_dimcoord e m ax k c s :
+Lemma inv_write_dimcoord e m used ax k c s :
   fx_dimname (m_var m) = true -> Inv e s ->
-  Inv e (snd (write_dimcoord m ax k c s)) /\ name_ok e (fst (fst (write_dimcoord m ax k c s))).
+  Inv e (snd (write_dimcoord m used ax k c s)) /\ name_ok e (fst (fst (write_dimcoord m used ax k c s))).
 Proof.
   intros Hfx H. unfold write_dimcoord.
   assert (C : forall en, find_seen false c None s = Some en -> name_ok e (e_ncvar en))
@@ -1248,7 +1249,7 @@ Proof.
   destruct (find_seen false c None s) as [en|] eqn:F.
   - specialize (C en eq_refl). destruct (e_ncdims en) as [|d0 r].
     + simpl. auto.
-    + destruct (String.eqb (e_ncvar en) d0); [simpl; auto|].
+    + destruct (String.eqb (e_ncvar en) d0 && negb (smem d0 used)); [simpl; auto|].
       destruct (dimcoord_name m ax k c s) as [nv s1]. cbv zeta in G.
       destruct (write_bounds _ _ _ _ _ _). exact G.
   - destruct (dimcoord_name m ax k c s) as [nv s1]. cbv zeta in G.
@@ -1299,8 +1300,8 @@ Lemma inv_write_axis e m f dims i ax x s :
 Proof.
   intros Hfx H Hx. unfold write_axis. destruct (dim_for i dims 0) as [[p k]|].
   - destruct (nmem i (f_daxes f)).
-    + destruct (inv_write_dimcoord e m ax k (k_c k) s Hfx H) as [A _].
-      destruct (write_dimcoord m ax k (k_c k) s) as [[nv nd] s1]. simpl in *. auto.
+    + destruct (inv_write_dimcoord e m (map snd (x_a2d x)) ax k (k_c k) s Hfx H) as [A _].
+      destruct (write_dimcoord m (map snd (x_a2d x)) ax k (k_c k) s) as [[nv nd] s1]. simpl in *. auto.
     + destruct (inv_write_scalar e m k (k_c k) s H) as [A B].
       destruct (write_scalar m k (k_c k) s) as [nv s1]. simpl in *. split; [exact A|].
       intros n Hn. apply in_app_or in Hn as [Hn | [<- | []]]; auto.
